@@ -72,6 +72,12 @@ bound must not wrap in its integer type (`input < unit * 1000` for the last unit
 An accessor computed on the temporary returned by another one (dropExt().base()) is decided with the boundary class
 of ext(): the temporary is re-normalised by the constructor.
 
+Layered accessors (refactor batch 6): positions found inside the last component (base(), or a helper that is handed it)
+are kept apart from positions in the whole name ('DB' vs 'D'); `filename.size() - (base.size() - dot)` and
+`path().size() + dot` turn one into the other, `path().size()` is the start of the last component; a helper result that
+may be npos is split into both cases where it is obtained.  beginsWith may be `input.compare(0, prefix.size(), prefix) == 0`
+(early `return false` only for a longer prefix); the prefix-length loop may sit in longestBeginningMatch itself.
+
 Helpers: file-local / private helpers are followed with parameters mapped (FileName position helpers are
 summarised into the typestate, a prefix-length index loop stands for std::mismatch, a lookup helper that scans
 from the back and returns the first hit stands for last-duplicate-wins, name=value cutting may live in a helper).
@@ -1717,6 +1723,8 @@ def discover_ladder(tu, fr, rungs, und, depth=0, hi=float('inf')):
                         continue        # cannot be reached: an earlier rung already took these values
                     if r2['op'] in ('>', '>=') and r2['thr'] < rg['thr'] * (1 - 1e-6):
                         continue        # below the range that is handed over
+                    if r2['op'] in ('<', '<=') and r2['thr'] < rg['thr'] * (1 - 1e-6):
+                        continue        # sub-unit rungs of the callee: the handed-over values are all above them
                     pre = r2.setdefault('pre', pre_resolve(tu, r2))
                     if first and narrowing:
                         pre['probs'] = list(pre['probs']) + [('narrowing', narrowing)]
@@ -3101,7 +3109,7 @@ def check_arglist(ctx, tu):
 # ====================================================================================================
 #  R-C18-6  prefix helpers
 # ====================================================================================================
-def prefix_length_fn(tu, f):
+def prefix_length_fn(tu, f, inline=False):
     """Does f compute the length of the common prefix of its two string parameters with an index loop
          i = 0; while (i < min(a.size(), b.size()) && a[i] == b[i]) ++i; return i;
        returns ('ok', text) | ('bad', kind, message, loc) | ('und', why)"""
@@ -3153,7 +3161,17 @@ def prefix_length_fn(tu, f):
         return ('und', 'the index is not advanced once per iteration')
     # result
     rets = [nd for bb, i, nd in x.g.stmts() if nd.get('kind') == 'ReturnStmt']
-    if len(rets) != 1 or not tu.kids(rets[0]) or x.poly_at(tu.kids(rets[0])[0], x.pos_of(rets[0])) != Poly.atom(lp.ivar):
+    okres = len(rets) == 1 and tu.kids(rets[0]) and x.poly_at(tu.kids(rets[0])[0], x.pos_of(rets[0])) == Poly.atom(lp.ivar)
+    if not okres and inline and len(rets) == 1 and tu.kids(rets[0]):
+        # the loop sits in longestBeginningMatch itself: the result is <parameter>.substr(0, index)
+        e = x.peel(tu.kids(rets[0])[0])
+        if e is not None and e.get('kind') == 'CXXMemberCallExpr' and last_name(tu.sd(e).get('q')) == 'substr':
+            s_, obj, args = tu.call_parts(e)
+            real = [y for y in args if y.get('kind') != 'CXXDefaultArgExpr']
+            if x.var_of(obj)[0] in [p['id'] for p in ps] and len(real) == 2 and x.poly_at(real[0], x.pos_of(e)).as_int() == 0 and \
+                    x.poly_at(real[1], x.pos_of(rets[0])) == Poly.atom(lp.ivar):
+                okres = True
+    if not okres:
         return ('und', 'the function does not return the loop index')
     ln = lp.bound_excl
     if ln == MIN:
@@ -3306,6 +3324,69 @@ def word_loop_prefix(tu, x, f, ps, K, B, MIN, a, call):
              % (W, W)], bad, und)
 
 
+def begins_with_compare(tu, x, f, ps, rets):
+    """beginsWith written as  input.compare(0, prefix.size(), prefix) == 0  (possibly behind `if (prefix.size() > input.size())
+    return false;`).  None if no such compare call; else (kind, message, loc)"""
+    INP, PRE = ('var', ps[0]['id'], ps[0]['name']), ('var', ps[1]['id'], ps[1]['name'])
+    SI, SP = Poly.atom(('size', INP)), Poly.atom(('size', PRE))
+    main = None
+    for r in rets:
+        e = tu.strip(tu.kids(r)[0], casts=True) if tu.kids(r) else None
+        if e is not None and e.get('kind') == 'BinaryOperator' and e.get('opcode') in ('==', '!='):
+            for a_, b_ in (tu.kids(e)[:2], tu.kids(e)[:2][::-1]):
+                c = x.peel(a_)
+                if c is not None and c.get('kind') == 'CXXMemberCallExpr' and last_name(tu.sd(c).get('q')) == 'compare' and \
+                        (tu.sd(c).get('q') or '').startswith('std::basic_string<') and x.poly_at(b_, x.pos_of(r)).as_int() == 0:
+                    main = (r, e, c)
+    if main is None:
+        return None
+    r, e, c = main
+    loc = tu.loc(r)
+    s_, obj, args = tu.call_parts(c)
+    real = [y for y in args if y.get('kind') != 'CXXDefaultArgExpr']
+    if len(real) != 3:
+        return ('und', 'cannot read `%s`' % tu.show(c), loc)
+    pos = x.pos_of(r)
+    okey, p0, n0, skey = x.objkey(obj), x.poly_at(real[0], pos), x.poly_at(real[1], pos), x.objkey(real[2])
+    if e.get('opcode') == '!=':
+        return ('negated', 'beginsWith returns `%s`: the result is inverted' % tu.show(e), loc)
+    if okey == PRE and skey == INP:
+        return ('compares-with-input', 'the roles are swapped in `%s`: it tests whether the input is a prefix of the second argument' % tu.show(c), loc)
+    if okey != INP or skey != PRE:
+        return ('und', '`%s` does not compare the input with the prefix argument' % tu.show(c), loc)
+    if p0.as_int() != 0:
+        if p0.as_int() is not None:
+            return ('prefix-offset', '`%s` compares from offset %d of the input, not from its beginning' % (tu.show(c), p0.as_int()), loc)
+        return ('und', 'offset `%s` of the comparison' % p0.show(), loc)
+    if n0 != SP:
+        if n0 == SI:
+            return ('compares-with-input', '`%s` compares the whole input with the prefix: true only if both are equal' % tu.show(c), loc)
+        if (n0 - SP).as_int() is not None:
+            return ('prefix-length', '`%s` compares `%s` characters, expected `%s`' % (tu.show(c), n0.show(), SP.show()), loc)
+        return ('und', 'length `%s` of the comparison' % n0.show(), loc)
+    # the other returns: constant results that follow from the guard they sit behind
+    for r2 in rets:
+        if r2 is r:
+            continue
+        v = x.poly_at(tu.kids(r2)[0], x.pos_of(r2)).as_int() if tu.kids(r2) else None
+        gl = []
+        for cn, truth, blk in x.guards(x.pos_of(r2)):
+            gl += rels_of(x.cond_at(cn, truth, x.pos_of(cn))) or [None]
+        longer = Rel.make(SP, '>', SI)
+        empty = Rel.make(SP, '==', 0)
+        if v == 0 and any(lf is not None and lf[0] == 'rel' and lf[1] == longer for lf in gl):
+            continue        # a prefix cannot be longer than the string it starts
+        if v == 1 and any(lf is not None and lf[0] == 'rel' and lf[1] == empty for lf in gl):
+            continue        # the empty string starts every string
+        if v == 0 and any(lf is not None and lf[0] == 'rel' and lf[1].op == '>=' and about(lf[1].p, SP - SI) and
+                          about(lf[1].p, SP - SI)[0] > 0 and Fraction(-about(lf[1].p, SP - SI)[1]) / about(lf[1].p, SP - SI)[0] <= 0
+                          for lf in gl):
+            return ('rejects-equal-length', '`%s` is returned whenever the prefix is at least as long as the input: a string does not '
+                    'begin with itself any more' % tu.show(r2), tu.loc(r2))
+        return ('und', 'cannot justify the early `%s`' % tu.show(r2), tu.loc(r2))
+    return ('ok', 'input.compare(0, prefix.size(), prefix) == 0', loc)
+
+
 def check_prefix(ctx, tu):
     R = 'R-C18-6'
     n = 0
@@ -3320,6 +3401,16 @@ def check_prefix(ctx, tu):
         key = '%s|%s|%s|' % (R, file, fname)
         ps = f['params']
         mm = list(calls_in(x, ('mismatch',), 'std::'))
+        if len(ps) == 2 and not mm and loops_of(x):
+            verdict = prefix_length_fn(tu, f, inline=True)
+            if verdict[0] == 'ok':
+                ctx.ok(R, inst, '%s; result = parameter.substr(0, index)' % verdict[1], tu.fn_loc(f))
+                continue
+            if verdict[0] == 'bad':
+                ctx.violation(R, inst, verdict[2], verdict[3], key=key + verdict[1])
+                continue
+            ctx.undecided(R, inst, verdict[1], tu.fn_loc(f))
+            continue
         if len(ps) == 2 and not mm:
             # alternative shape: <parameter>.substr(0, <prefix length of the two parameters>)
             rets = [nd for b, i, nd in x.g.stmts() if nd.get('kind') == 'ReturnStmt']
@@ -3450,6 +3541,17 @@ def check_prefix(ctx, tu):
         ps = f['params']
         rets = [nd for b, i, nd in x.g.stmts() if nd.get('kind') == 'ReturnStmt']
         calls = list(calls_in(x, ('longestBeginningMatch',)))
+        if len(ps) == 2 and not calls and rets:
+            cmpv = begins_with_compare(tu, x, f, ps, rets)
+            if cmpv is not None:
+                kind_, msg_, loc_ = cmpv
+                if kind_ == 'ok':
+                    ctx.ok(R, inst, msg_, loc_)
+                elif kind_ == 'und':
+                    ctx.undecided(R, inst, msg_, loc_)
+                else:
+                    ctx.violation(R, inst, msg_, loc_, key=key + kind_)
+                continue
         if len(ps) == 2 and len(rets) == 1 and not calls:
             # alternative shape: <prefix length of the two parameters> == prefix.size()
             e = tu.strip(tu.kids(rets[0])[0], casts=True) if tu.kids(rets[0]) else None
@@ -3575,6 +3677,7 @@ class FileNameTS:
         self.field = field
         self.FKEY = fkey or ('field', ('this',), field)
         self.depth = depth
+        self.is_base = False      # the analysed string is the last component (a helper that is handed base())
         self.boundaries = []      # ('lt' | 'le', comparison node): how the dot is compared with the start of the last component
         self.ret_vals = set()     # (abstract value, 'nosep' | 'sep' | None) of an integer-returning helper
         self.helper_kinds = {}    # dot-search kinds found in helpers that were followed
@@ -3666,14 +3769,23 @@ class FileNameTS:
                 on_name = x.objkey(obj) == self.FKEY
                 real = [a for a in args if a.get('kind') != 'CXXDefaultArgExpr']
                 if name in ('size', 'length') and on_name:
-                    return 'LEN'
+                    return 'BLEN' if self.is_base else 'LEN'
+                if name in ('size', 'length') and not real and self.base_like(obj, d):
+                    return 'BLEN'           # length of the last component
+                if name in ('size', 'length') and not real:
+                    o_ = x.peel(obj)
+                    if o_ is not None and o_.get('kind') == 'CXXMemberCallExpr' and tu.sd(o_).get('q') == FNAME + '::path' and \
+                            (tu.call_parts(o_)[1] is None or tu.is_this(tu.call_parts(o_)[1])):
+                        return 'L'          # path() ends right in front of the last component
                 if name in FIND_LAST and real:
                     whole = len(real) == 1 or self.ev(real[1], d) == 'N'
                     if self.is_dot(real[0]):
+                        if on_name and whole and self.is_base:
+                            return 'DB?'        # position inside the last component (relative to its start)
                         if on_name and whole:
                             return 'DG?' if d.get('$nosep') else 'D?'
                         if self.base_like(obj, d) and whole:
-                            return 'DG?'
+                            return 'DB?'
                         return 'DU?'
                     if self.is_sep(real[0]) and on_name and whole:
                         return 'N' if d.get('$nosep') else 'S?'
@@ -3681,12 +3793,14 @@ class FileNameTS:
                     # the *first* dot from a start position (siblings that search the last dot disagree: see the
                     # search-agreement clause of R-C18-1); it lies in the last component iff the search starts there
                     st0 = self.ev(real[1], d) if len(real) >= 2 else 'Z'
+                    if on_name and self.is_base and st0 == 'Z':
+                        return 'DB?'
                     if on_name and (st0 == 'L' or (st0 == 'Z' and d.get('$nosep'))):
                         return 'DG?'
                     if on_name and st0 == 'Z':
                         return 'D?'
                     if self.base_like(obj, d) and st0 == 'Z':
-                        return 'DG?'
+                        return 'DB?'
                     return 'DU?'
                 if name in FIND_DELIM and len(real) == 2 and on_name and self.is_sep(real[0]):
                     v = self.local(real[1])
@@ -3712,10 +3826,16 @@ class FileNameTS:
                         return 'L'
                     if o in ('D', 'DG', 'D?', 'DG?', 'DX'):
                         return 'D+1'
+                    if o in ('DB', 'DB?'):
+                        return 'DB+1'
+                    if o == 'L':
+                        return 'L+1'
                 if b == 'Z':
                     return a
                 if a == 'Z':
                     return b
+                if {a, b} == {'L', 'DB'}:
+                    return 'DG'            # start of the last component + position inside it
             else:
                 if b == 'Z':
                     return a
@@ -3723,6 +3843,12 @@ class FileNameTS:
                     return 'D-L'
                 if a == 'LEN' and b == 'L':
                     return 'LEN-L'
+                if a == 'BLEN' and b == 'DB':
+                    return 'BLEN-DB'       # length of '.' + extension
+                if a == 'LEN' and b == 'BLEN-DB':
+                    return 'DG'            # the same dot counted from the start of the whole name
+                if a == 'LEN' and b == 'BLEN':
+                    return 'L'
         return 'T'
 
     def truth(self, c, d):
@@ -3742,7 +3868,7 @@ class FileNameTS:
             return None
         if la == 'N':
             r = True
-        elif la in ('S', 'D', 'DG', 'DX', 'L', 'Z', 'LEN', 'D+1'):
+        elif la in ('S', 'D', 'DG', 'DX', 'L', 'Z', 'LEN', 'D+1', 'DB', 'DB+1', 'BLEN'):
             r = False
         else:
             return None
@@ -3788,11 +3914,17 @@ class FileNameTS:
             if x.objkey(obj) != self.FKEY:
                 # the tail of the last component is the tail of the name
                 real_ = [y for y in args if y.get('kind') != 'CXXDefaultArgExpr']
-                if self.base_like(obj, d) and len(real_) == 1 and self.ev(args[0], d) == 'D+1':
-                    return ('sub', 'D+1', None)
-                # the head of the last component up to a dot found in it:  base.substr(0, dot)  ==  name[L, dot)
-                if self.base_like(obj, d) and len(real_) == 2 and self.ev(real_[0], d) == 'Z' and self.ev(real_[1], d) == 'DG':
-                    return ('sub', 'L', 'D-L')
+                if self.base_like(obj, d):
+                    a0 = self.ev(real_[0], d) if real_ else 'T'
+                    a1 = self.ev(real_[1], d) if len(real_) == 2 else None
+                    if len(real_) == 1 and a0 == 'DB+1':
+                        return ('sub', 'D+1', None)       # base.substr(dot + 1): the tail of the last component
+                    if len(real_) == 1 and a0 == 'DB':
+                        return ('sub', 'D', None)          # base.substr(dot): the tail including the dot
+                    if len(real_) == 2 and a0 == 'Z' and a1 == 'DB':
+                        return ('sub', 'L', 'D-L')         # base.substr(0, dot)  ==  name[L, dot)
+                    if a0 == 'Z' and (a1 == 'N' or (len(real_) == 1)):
+                        return ('sub', 'L', None)          # the whole last component
                 return 'T'
             a = self.ev(args[0], d) if args else 'T'
             if len(args) < 2 or args[1].get('kind') == 'CXXDefaultArgExpr' or self.ev(args[1], d) == 'N':
@@ -3886,7 +4018,13 @@ class FileNameTS:
             summ = self.helper(n)
             if summ is not None:
                 out = []
+                expanded = []
                 for rv, flag in sorted(summ, key=str):
+                    if rv in ('D?', 'DG?', 'DB?', 'DU?'):
+                        expanded += [('N', flag), (rv[:-1], flag)]     # "may be npos": both cases, so that a direct use is definite
+                    else:
+                        expanded.append((rv, flag))
+                for rv, flag in expanded:
                     if (flag == 'nosep' and d.get('$sep')) or (flag == 'sep' and d.get('$nosep')):
                         continue
                     d2 = dict(d)
@@ -3922,18 +4060,25 @@ class FileNameTS:
             fkey = self.FKEY
         elif not hf.get('rec'):
             hits = [i for i, a in enumerate(args) if self.x.objkey(a) == self.FKEY]
+            on_base = False
+            if not hits:
+                hits = [i for i, a in enumerate(args) if self.base_like(a, {})]
+                on_base = bool(hits)
             ps = hf.get('params', [])
             if len(hits) != 1 or hits[0] >= len(ps) or 'basic_string' not in ps[hits[0]]['ct'] or \
                     not ps[hits[0]]['ct'].startswith('const '):
                 return None
             p = ps[hits[0]]
             fkey = ('var', p['id'], p['name'])
+            base_mode = on_base or self.is_base
         else:
             return None
         memo = FileNameTS.SUMMARIES.setdefault(id(tu), {})
-        key = (hf['id'], fkey[0])
+        base_mode = locals().get('base_mode', False)
+        key = (hf['id'], fkey[0], base_mode)
         if key not in memo:
             sub = FileNameTS(tu, hf, self.field, fkey=fkey, depth=self.depth + 1)
+            sub.is_base = base_mode
             sub.run()
             memo[key] = sub
         sub = memo[key]
@@ -4060,7 +4205,7 @@ class FileNameTS:
                             d[k2] = 'DG?'
                         elif w == 'D':
                             d[k2] = 'DG'
-            elif a in ('D?', 'DG?', 'DU?'):
+            elif a in ('D?', 'DG?', 'DU?', 'DB?'):
                 self.setv(d, v, 'N' if eq else a[:-1])
             elif isinstance(a, tuple) and a[0] == 'A':
                 dv = a[1]
@@ -4069,7 +4214,7 @@ class FileNameTS:
                     d[dv] = {'D': 'DG', 'D?': 'DG?'}.get(cur, cur)
                 else:
                     d[dv] = 'DX'
-            elif a in ('S', 'D', 'DG', 'DX', 'L', 'Z', 'LEN', 'D+1') and eq:
+            elif a in ('S', 'D', 'DG', 'DX', 'L', 'Z', 'LEN', 'D+1', 'DB', 'DB+1', 'BLEN') and eq:
                 return []
             elif a == 'N' and not eq:
                 return []
@@ -4228,9 +4373,13 @@ def check_filename(ctx, tu):
         spec = CUT_SPEC.get(name)
         if spec is None:
             continue
+        tvars = set(ts.x.vars)
         for node, sv, d in ts.returns:
             n8 += 1
-            dots = [w for k2, w in d.items() if w in ('D', 'D?', 'DG', 'DG?', 'DX', 'DU', 'DU?') or (w == 'N' and False)]
+            dots = [{'DB': 'DG', 'DB?': 'DG?'}.get(w, w) for k2, w in d.items()
+                    if w in ('D', 'D?', 'DG', 'DG?', 'DX', 'DU', 'DU?', 'DB', 'DB?')
+                    and not (isinstance(k2, tuple) and k2 and k2[0] == 'call' and
+                             any(w2 in ('N', w, w.rstrip('?')) for k3, w2 in d.items() if not isinstance(k3, tuple) and k3 in tvars))]
             nosep = bool(d.get('$nosep'))
             seps = [w for w in d.values() if w in ('S?', 'S', 'L')]
             dstate = None
